@@ -525,6 +525,34 @@ func (e *c10env) ops() []c10op {
 			n.skip = k
 			return n, ent, false
 		}},
+		{"WithSkip on a logger that has writers, then AddWriter on the child", func(e *c10env, t *mnode) (*mnode, *slog.Entry, bool) {
+			// the facade's helper gets a destination of its own: the logger it was derived from keeps its writers as they are
+			if t.normal == nil && t.errs == nil {
+				return nil, t.e, false // (a logger without writers of its own has nothing its helper could share)
+			}
+			k := 3 + r.Intn(2)
+			ent := t.e.WithSkip(k)
+			if t.skipKids == nil {
+				t.skipKids = map[int]*slog.Entry{}
+			}
+			fresh := t.skipKids[k] == nil
+			t.skipKids[k] = ent
+			if !fresh {
+				// (the child kept for this count exists already and is modelled: handing it out again gives it the count again)
+				for _, n := range e.nodes {
+					if n.e == ent {
+						n.skip = k
+					}
+				}
+				return nil, t.e, false
+			}
+			n := e.withChild(t, ent)
+			n.skip = k
+			w, id := pickW()
+			ent.AddWriter(w)
+			n.normal, n.errs = []string{wSTDOUT, id}, []string{wSTDERR}
+			return n, ent, false
+		}},
 		{"SetJSONMode", func(e *c10env, t *mnode) (*mnode, *slog.Entry, bool) {
 			b, m := modeArgs(r)
 			ent := t.e.SetJSONMode(b...)
